@@ -91,7 +91,7 @@ def strategy(stratum, tier):
             v=st.just(v),
             D=st.just(D),
             N=st.just(N),
-            L=gens.st_L(0.2, 50.0),
+            L=gens.st_L(0.2, 50.0, extreme=True),
             frac=frac,
             params=params,
             state=gens.st_white(0.2, 2.0),
